@@ -34,4 +34,9 @@ FileHex(path)   == ""        \* whole file as lower-case hex
 StrLen(s)       == 0
 SubStr(s, a, b) == ""        \* 1-based inclusive, like SubSeq
 StrCat(a, b)    == ""
+\* --- appended for X04 (encrypted comments): raw AES-256 block cipher over whole 16-byte blocks (ECB, no padding; the
+\*     CBC chaining is written in TLA+ in EncComment.tla) and HMAC-SHA-512
+HmacSha512(key, bytes)        == <<>>
+AesEcbEnc(key, data)          == <<>>   \* Len(data) % 16 = 0
+AesEcbDec(key, data)          == <<>>   \* inverse
 =============================================================================
